@@ -87,8 +87,9 @@ def main():
     ext += [("formix", f"nest={ne},pos={p}") for ne in (0, 1) for p in (0, 1)]
     ext += [("forscalar", ""), ("forfunc", "")]
     ext += [("psub", f"kind={k}") for k in ((1, 2, 3, 4, 5, 6) if thorough else (1, 4, 6))]
-    # third round: hierarchical names (hsub is traced: constant subscripts over all integers) ...
-    ext = [("hsub", f"g={g}") for g in ((0, 1, 2, 3, 4, 5) if thorough else (0, 1))] + ext
+    # third round: hierarchical names (hsub is traced in the thorough tier: constant subscripts over all integers) ...
+    ext = ([("hsub", f"g={g}") for g in range(6)] if thorough else []) + ext
+    ext += [] if thorough else [("hsub", "win=1")]
     #     (quick: one shard per group with the variant dimension capped; thorough: one shard per group and variant)
     ext += [("forhier", f"g={g},ek={ek}") for g in range(6) for ek in range(5)] if thorough else [("forhier", f"g={g},ekmax=1") for g in range(6)]
     ext += [("hslice", f"s={s}") for s in ((0, 1, 2, 3) if thorough else (0, 2))]
@@ -144,11 +145,24 @@ def main():
                      + ("1..4" if thorough else "1..3") + "; stepped loop ranges a:s:b, s in 1..3, a in 0..n+2, b in a..n+3, n in " + ("2..4" if thorough else "2..3")
                      + "; loops over either dimension of A[2,3] and of q[2].w[3] (A[i,k], A[k,i], k in 0..4, range within 0..4; A[c-i,k], A[k,c-i], c in 2..5); "
                      "loop-variable subscripts on a scalar (s[i], s[c-i], s[i+c], range within 0..3); for-statements in a function algorithm (x[i] range within 0..5, x[c-i])"
-                     + ("; thorough adds stepped slices a:s:b on size 5" if thorough else ""))
+                     + ("; thorough adds stepped slices a:s:b on size 5" if thorough else "")
+                     + "; HIERARCHICAL NAMES with unsubscripted levels - shapes a.x[..] (C a; Real x[3] in C), b.a.x[..], x[..] in an equation written inside C, q[..].s (Q q[3]), "
+                     "a.W[..,k], a.W[k,..] (2x3), q[..].a.x[k], q[k].a.x[..] (Q q[2]), a.s[..] and a[..].s on scalars: for-equations REF = i and i = REF with subscript "
+                     + ("i (range within -1..4, k in 0..4), c-i (c in 2..5, range within 1..3), i-c / i+c (c in 1..2), i+c with the range spelled -a:b (a in 0..2, b, c in 0..3)" if thorough
+                        else "i (range within -1..4, k in 0..4) and c-i (c in 2..5, range within 1..3)")
+                     + "; constant subscripts on a.x[i], b.a.x[i], inner x[i], q[i].s, a.W[i,j], q[i].a.x[j], a.s[i], a[i].s: " + ("ALL integers" if thorough else "i in [-3, 6], j in [-1, 5]")
+                     + "; slices sum(REF[a:b]) / sum(REF[a:s:b]) on the six 1-D shapes, a in 0..4, b in 0..5, " + ("s in 1..3 and unstrided" if thorough else "s = 2 and unstrided")
+                     + "; OBSERVATION POINTS - a subscripted reference V as value of: start / min / max / nominal of a variable, value of a parameter and of a constant, declaration equation, "
+                     "max of an input, start and fixed (Boolean) of a state, min of a parameter, start of a component's variable and value of a component's parameter through a modification (13 hosts), "
+                     "V in {R, 2*R" + (", -R" if thorough else "") + "}, R in {p[i] (i in -1..4), P[i,j] (2x3, i in 0..3, j in 0..4), s[i] on a scalar, a.p[i]}; slices p[a:b], p[a:s:b]"
+                     + (", a.p[..]" if thorough else "") + " as start / min / value / declaration equation / component parameter of a size-2 host (a in 0..4, b in 0..5, "
+                     + ("s in 1..2 and unstrided" if thorough else "s = 2 and unstrided") + "); x[i], i in -2..5, in 11 expression contexts (unary minus, product, quotient, power, abs, min, if-expression "
+                     "condition and branch, if-equation condition, user function argument, initial equation)")
     rep.assumptions += ["values are realised only at the CasADi (SWIG) boundary and in numpy.arange",
                         "window families (strided and matrix slices, for-equations / for-statements, parameter-expression subscripts): slice bounds, loop bounds and literals inside subscript expressions are forked to concrete values over the stated window before generate() is called (the real code passes them to Python range / numpy.arange / CasADi constants immediately) and generate() then runs untraced; CrossHair/z3 enumerate the window",
                         "two loop-dependent subscripts on one reference (A[i,i]) are not in the family: pymoca accepts them but produces a residual with a free loop variable (not a range question)", "error-message formatting of symbolic values is cut (not the subject)",
-                        "an empty range a:b with b<a may be rejected or give the empty selection"]
+                        "an empty range a:b with b<a may be rejected or give the empty selection",
+                        "attribute / binding hosts: the value is read from the Variable object of the generated model (or the residual for a declaration equation) and evaluated with the subscripted symbol at 1, 10, 100, ...; a slice whose length differs from the size-2 host may be refused or accepted (not a range question)"]
     return rep.finish()
 
 
